@@ -237,7 +237,15 @@ func runC06(r *rep.Report, thorough bool) error {
 					}
 				}
 			}
-			reply, err := d.Call(map[string]any{"op": "c06.gen", "env": env, "prefix": prefix})
+			realImports := map[string][]string{}
+			for fname, ro := range real {
+				imps := []string{}
+				for _, m := range dartImportRe.FindAllStringSubmatch(ro.imports, -1) {
+					imps = append(imps, m[1])
+				}
+				realImports[fname] = imps
+			}
+			reply, err := d.Call(map[string]any{"op": "c06.gen", "env": env, "prefix": prefix, "imports": realImports})
 			if err != nil {
 				return err
 			}
@@ -303,6 +311,11 @@ func runC06(r *rep.Report, thorough bool) error {
 				}
 				if cl := strsOf(fm["clashes"]); len(cl) > 0 {
 					r.Fail(rep.Failure{Signature: "c06:two-declarations-one-id" + c06Shape(env), What: fmt.Sprintf("file %s holds, under one ID, declarations that are not interchangeable (one of them is dropped, which one depends on an unstable sort): %v", name, cl), Input: in})
+				}
+				if closed, _ := fm["closed"].(bool); closed {
+					if cr, _ := fm["closedReal"].(bool); !cr {
+						r.Fail(rep.Failure{Signature: "c06:symbol-not-resolved-with-the-real-imports" + c06Shape(env), What: fmt.Sprintf("file %s, with the imports the real generator gives it, uses symbols that do not resolve: %v", name, strsOf(fm["undefinedReal"])), Input: in})
+					}
 				}
 				if closed, _ := fm["closed"].(bool); !closed {
 					r.Fail(rep.Failure{Signature: "c06:symbol-not-resolved" + c06Shape(env), What: fmt.Sprintf("file %s: symbols that do not resolve (Dart scoping: the file's own declaration, else the only import declaring it) to the declaration meant for them, or are declared twice: %v (evaluated on the model, which agrees with the real declarations)", name, strsOf(fm["undefined"])), Input: in})
